@@ -6,6 +6,36 @@ import os
 VERIF = os.path.dirname(os.path.dirname(os.path.abspath(__file__)))
 
 CHECKS = {
+    "C12": dict(
+        technique="conformant block target in TLA+ (TargetRules/Target.tla: finds the command by opcode, reads LBA/lengths "
+                  "off the CDB with T10Cdb field positions, disk = LBA -> block) model-checked for read-your-writes through "
+                  "the spec's own codec; random histories through the facade over both transports against a live target are "
+                  "replayed by TLC's target from the received CDBs (Trace_Target)",
+        text="Every I/O event carries the caller's arguments and data, the CDB and data-out the binding received, what "
+             "the target returned and what the caller sees; TLC checks target-recovers-arguments, write data reaches the "
+             "target, reads return what was last written at the LBAs the caller named (LBAs around 0, 2^32, 2^64), "
+             "capacity and identity reported.",
+        note="The live Python target is environment; TLC re-derives its answers (a non-conformant harness target is a "
+             "machinery failure). Block sizes 1/2/4, transfer lengths 1..3.",
+        ref="6 C12"),
+    "C13": dict(
+        technique="facade call state machine (Facade.tla) model-checked by TLC; every facade method x command set x subset "
+                  "of optional keyword arguments executed with a recording device that fills the data-in buffer; judged by "
+                  "Trace_Facade (exactly once, same buffers), Trace_Command (arguments and defaults in the CDB, opcode of "
+                  "the attached set) and Trace_Data (result = parse of what the device wrote)",
+        text="36 facade methods (4 PR IN service actions) on every set offering the command, every subset of optional "
+             "keywords (sampled above 24/300), device-provided contents from the C04 generators.",
+        note="modeselect6/10, persistentreserveout, extendedcopy4/5 are driven by C05. Argument names = constructor "
+             "signatures. Known finding: reportpriority decoder.",
+        ref="6 C13"),
+    "C16": dict(
+        technique="attach / re-attach state machine (Attach.tla) model-checked by TLC; all 32 types x 8 qualifiers and "
+                  "attach sequences executed on real SCSIDevice/ISCSIDevice over stand-in bindings; every attach validated "
+                  "by the stateful Trace_Attach",
+        text="One standard INQUIRY per attach, TypeSelectsSet for the named types, primary commands always offered, "
+             "selection for unnamed types independent of attach history, other devices untouched.",
+        note="Types 02h/09h (mapped to SSC by the library) only need the primary commands.",
+        ref="6 C16"),
     "C04": dict(
         technique="parameter-data formats transcribed into TLA+ as parsers with well-formedness predicates (T10Data.tla); "
                   "every decoder call on generated responses is an event; TLC re-derives the expected values from the "
